@@ -464,6 +464,10 @@ type ReadResult struct {
 // Reported: the reader reported an error somewhere.
 func (r *ReadResult) Reported() bool { return r.CtorErr != nil || r.Err != nil }
 
+// ScanAfterEnd makes ReadAll call Scan once more after Next has returned false
+// (set by the fault-enumeration checks of the reader).
+var ScanAfterEnd bool
+
 // ReadAll drives NewParquetReader/Next/Scan/Error over src. cap bounds the
 // number of Next()==true iterations (logical step bound instead of a
 // timeout).
@@ -494,6 +498,15 @@ func ReadAll(sh *Shape, src io.ReadSeeker, cap int) (res ReadResult) {
 		}
 	}
 	res.Err = rd.Error()
+	if ScanAfterEnd && !res.Capped {
+		// a caller that scans once more after Next returned false ("scan, then look at what
+		// Next said"): whatever it gets, the call must not panic
+		scratch := reflect.New(sh.Type)
+		rd.Scan(scratch.Interface())
+		if e := rd.Error(); res.Err == nil && e != nil {
+			res.Err = e
+		}
+	}
 	if !res.Capped {
 		if rd.Next() {
 			res.NextAfterEnd = true
